@@ -307,6 +307,12 @@ impl<T: Serialize + DeserializeOwned + Clone> SpillBuf<T> {
     }
 }
 
+/// Parity of the bits of `x` selected by the coefficient blocks, as the aBit check combines them.
+pub fn abit_combination(x: &[bool], rbits: &[[u8; 16]]) -> bool {
+    let blocks: Vec<crate::block::Block> = rbits.iter().map(|b| crate::block::Block::from(*b)).collect();
+    crate::mpc::faand::verif_abit_combination(x, &blocks)
+}
+
 /// The engine's wire encoding of `v` (to test that encoded lengths do not depend on values).
 pub fn wire_encode<T: serde::Serialize>(v: &T) -> Result<Vec<u8>, String> {
     crate::utils::serde::serialize(v).map_err(|e| format!("{e:?}"))
